@@ -17,7 +17,7 @@ func c06Cfg() *DeclCfg {
 		PNamespace: 30, PShortOnly: 20, PLongOnly: 20, PRequired: 45, PDefault: 8, PProgAttr: 40, POptional: 15,
 		PPos: 45, PosMax: 4, PRest: 50, PPosReq: 60, PExec: 60, PByTag: 50, PSubOptional: 30, PAliases: 20,
 		ParserOpts: []flags.Options{0, flags.PassDoubleDash, flags.HelpFlag | flags.PassDoubleDash, flags.HelpFlag},
-		PosTypes:   []TypeSpec{{K: KString}}, PNamedRest: 40, PPosSplit: 25, PReqViaAPI: 25,
+		PosTypes:   []TypeSpec{{K: KString}}, PNamedRest: 40, PPosSplit: 25, PReqViaAPI: 25, PReqInverted: 20,
 	}
 }
 
@@ -28,7 +28,7 @@ func c06Run(c *Ctx) {
 		// a required option registered after the parser was first used is enforced as well
 		hc := c06Cfg()
 		hc.PPosReq = 0 // (positional requirements are not state-free on a re-used parser, see hist.go)
-		histCase(c, GenDecl(c.Sub("dh"), hc), []string{"late-required-group", "late-required-in-group", "late-required-in-group", "required-set", "required-set"}, []string{"parse"})
+		histCase(c, GenDecl(c.Sub("dh"), hc), []string{"late-required-group", "late-required-in-group", "late-required-in-group", "required-set", "required-set", "none"}, []string{"parse", "complete"})
 		return
 	}
 	var target *Cmd
